@@ -1,0 +1,14 @@
+//go:build verif
+
+package core
+
+// VerifC07Synchronizable exposes (*Entry).synchronizable to the verification
+// harness (properties C01-C07).
+func VerifC07Synchronizable(e *Entry) *Entry {
+	return e.synchronizable()
+}
+
+// VerifC07SlimChange exposes (*Change).slim to the verification harness.
+func VerifC07SlimChange(c *Change) *Change {
+	return c.slim()
+}
